@@ -222,15 +222,16 @@ Proof.
   - destruct p; try reflexivity. exfalso; eapply H1; reflexivity.
 Qed.
 
-Lemma pindex_default : forall pex ts, (forall t, ts <> TPu PColon :: t) -> (forall t, ts <> TPu PRBracket :: t) ->
+Lemma pindex_default : forall pex ts, (forall t, ts <> TPu PColon :: t) -> (forall t, ts <> TPu PColonColon :: t) ->
+  (forall t, ts <> TPu PRBracket :: t) ->
   pindex pex ts = bind (pex ts) (fun r =>
            match snd r with
-           | TPu PColon :: _ => pslice pex (Some (fst r)) (snd r)
+           | TPu PColon :: _ | TPu PColonColon :: _ => pslice pex (Some (fst r)) (snd r)
            | t1 => POk (IIndex (fst r), t1)
            end).
 Proof.
-  intros pex ts H1 H2. destruct ts as [|t0 ts]; [reflexivity|].
-  destruct t0; try reflexivity. destruct p; try reflexivity; exfalso; [eapply H1|eapply H2]; reflexivity.
+  intros pex ts H1 H3 H2. destruct ts as [|t0 ts]; [reflexivity|].
+  destruct t0; try reflexivity. destruct p; try reflexivity; exfalso; [eapply H1|eapply H3|eapply H2]; reflexivity.
 Qed.
 
 (* heads of printed expressions never are closing/separating tokens *)
@@ -444,7 +445,11 @@ Qed.
 (* ------------------------------------------------------------------ slices *)
 Definition opt_toks (o : option expr) : list tok := match o with Some y => print_expr y | None => [] end.
 Definition slice_toks (s x st : option expr) : list tok :=
-  opt_toks s ++ TPu PColon :: opt_toks x ++ match st with Some y => TPu PColon :: print_expr y | None => [] end.
+  opt_toks s ++
+  match x, st with
+  | None, Some z => TPu PColonColon :: print_expr z
+  | _, _ => TPu PColon :: opt_toks x ++ match st with Some y => TPu PColon :: print_expr y | None => [] end
+  end.
 
 Definition opt_ok (g : nat) (o : option expr) : Prop :=
   match o with Some y => wfb y = true /\ A y LOr /\ need y <= g | None => True end.
@@ -494,27 +499,61 @@ Proof.
   - rewrite (Hcc eq_refl). reflexivity.
 Qed.
 
+Lemma cc_default : forall pex start t1, (forall t, t1 <> TPu PRBracket :: t) ->
+  pslice pex start (TPu PColonColon :: t1) = bind (pex t1) (fun r => POk (ISlice start None (Some (fst r)), snd r)).
+Proof.
+  intros pex start t1 H. destruct t1 as [|t0 t1]; [reflexivity|].
+  destruct t0; try reflexivity. destruct p; try reflexivity. exfalso; eapply H; reflexivity.
+Qed.
+
+Lemma pslice_cc_ok : forall g start z rest, opt_ok g (Some z) ->
+  pslice (pe g LOr) start (TPu PColonColon :: print_expr z ++ TPu PRBracket :: rest)
+  = POk (ISlice start None (Some (defloat z)), TPu PRBracket :: rest).
+Proof.
+  intros g start z rest (Wz & Az & Nz).
+  rewrite cc_default by (head_neq Wz (TPu PRBracket :: rest)).
+  rewrite (Az _ g); [reflexivity | cbn; exact I | cbn [lnum]; lia].
+Qed.
+
 Lemma pindex_slice_ok : forall g s x st rest,
-  opt_ok g s -> opt_ok g x -> opt_ok g st -> (x = None -> st = None) ->
+  opt_ok g s -> opt_ok g x -> opt_ok g st ->
   pindex (pe g LOr) (slice_toks s x st ++ TPu PRBracket :: rest)
   = POk (ISlice (option_map defloat s) (option_map defloat x) (option_map defloat st), TPu PRBracket :: rest).
 Proof.
-  intros g s x st rest Hs Hx Hst Hcc. unfold slice_toks.
-  destruct s as [y|].
-  - destruct Hs as (Wy & Ay & Ny). cbn [opt_toks option_map]. repeat (rewrite <- app_assoc; cbn [app]).
-    rewrite pindex_default; try (head_neq Wy (TPu PColon :: opt_toks x ++ match st with Some y0 => TPu PColon :: print_expr y0 | None => [] end ++ TPu PRBracket :: rest)).
-    rewrite (Ay _ g); [| cbn; exact I | cbn [lnum]; lia].
-    cbn [bind fst snd]. apply pslice_ok; assumption.
-  - cbn [opt_toks option_map app]. repeat (rewrite <- app_assoc; cbn [app]).
-    change (pindex (pe g LOr) (TPu PColon :: ?t)) with (pslice (pe g LOr) None (TPu PColon :: t)).
-    apply pslice_ok; assumption.
+  intros g s x st rest Hs Hx Hst. unfold slice_toks.
+  assert (CC : (x = None /\ exists z, st = Some z) \/ (x = None -> st = None)).
+  { destruct x; [right; discriminate|]. destruct st as [z|]; [left; split; [reflexivity|exists z; reflexivity] | right; reflexivity]. }
+  destruct CC as [[-> [z ->]] | Hcc].
+  - (* `start::step` *)
+    cbn [option_map]. destruct s as [y|].
+    + destruct Hs as (Wy & Ay & Ny). cbn [opt_toks option_map]. repeat (rewrite <- app_assoc; cbn [app]).
+      rewrite pindex_default; try (head_neq Wy (TPu PColonColon :: print_expr z ++ TPu PRBracket :: rest)).
+      rewrite (Ay _ g); [| cbn; exact I | cbn [lnum]; lia].
+      cbn [bind fst snd]. apply pslice_cc_ok; assumption.
+    + cbn [opt_toks option_map app].
+      change (pindex (pe g LOr) (TPu PColonColon :: ?t)) with (pslice (pe g LOr) None (TPu PColonColon :: t)).
+      apply pslice_cc_ok; assumption.
+  - assert (E : match x, st with
+                | None, Some z => TPu PColonColon :: print_expr z
+                | _, _ => TPu PColon :: opt_toks x ++ match st with Some y => TPu PColon :: print_expr y | None => [] end
+                end = TPu PColon :: opt_toks x ++ match st with Some y => TPu PColon :: print_expr y | None => [] end).
+    { destruct x; [reflexivity|]. rewrite (Hcc eq_refl). reflexivity. }
+    rewrite E. clear E.
+    destruct s as [y|].
+    + destruct Hs as (Wy & Ay & Ny). cbn [opt_toks option_map]. repeat (rewrite <- app_assoc; cbn [app]).
+      rewrite pindex_default; try (head_neq Wy (TPu PColon :: opt_toks x ++ match st with Some y0 => TPu PColon :: print_expr y0 | None => [] end ++ TPu PRBracket :: rest)).
+      rewrite (Ay _ g); [| cbn; exact I | cbn [lnum]; lia].
+      cbn [bind fst snd]. apply pslice_ok; assumption.
+    + cbn [opt_toks option_map app]. repeat (rewrite <- app_assoc; cbn [app]).
+      change (pindex (pe g LOr) (TPu PColon :: ?t)) with (pslice (pe g LOr) None (TPu PColon :: t)).
+      apply pslice_ok; assumption.
 Qed.
 
-Lemma print_slice : forall b s x st, (x = None -> st = None) ->
+Lemma print_slice : forall b s x st,
   print_expr (ESlice b s x st) = print_expr b ++ TPu PLBracket :: slice_toks s x st ++ [TPu PRBracket].
 Proof.
-  intros b s x st H. unfold slice_toks, opt_toks. cbn [print_expr].
-  destruct x as [y|]; [|rewrite (H eq_refl)]; destruct s; try destruct st;
+  intros b s x st. unfold slice_toks, opt_toks. cbn [print_expr].
+  destruct x as [y|]; destruct s; destruct st;
     cbn [app]; repeat (rewrite <- app_assoc; cbn [app]); reflexivity.
 Qed.
 
@@ -586,10 +625,10 @@ Proof. reflexivity. Qed.
 Lemma need_sum : forall ys, list_sum (map need ys) = 20 * list_sum (map size ys).
 Proof. induction ys as [|y ys IH]; [reflexivity|]. cbn [map]. rewrite !list_sum_cons, IH. unfold need. lia. Qed.
 
-Theorem roundtrip_all : forall n e, size e <= n -> wfb e = true -> has_cc e = false -> ALL e.
+Theorem roundtrip_all : forall n e, size e <= n -> wfb e = true -> ALL e.
 Proof.
-  induction n as [|n IH]; intros e Hn W K; [destruct e; cbn [size] in Hn; lia|].
-  destruct e; cbn [size] in Hn; pose proof W as W0; cbn [wfb] in W; cbn [has_cc] in K.
+  induction n as [|n IH]; intros e Hn W; [destruct e; cbn [size] in Hn; lia|].
+  destruct e; cbn [size] in Hn; pose proof W as W0; cbn [wfb] in W.
   - (* EIdent *)
     apply all_of_C; [reflexivity | cbn; lia |].
     intros rest G res f HG Hao Hk Hf. unfold postfix_entry. cbn [print_expr app primary_with bind fst snd].
@@ -607,8 +646,8 @@ Proof.
     apply Hk. needs. lia.
   - (* EBinary *)
     bsplit. osplit.
-    assert (Hl : ALL e1) by (apply IH; [lia|assumption|assumption]).
-    assert (Hr : ALL e2) by (apply IH; [lia|assumption|assumption]).
+    assert (Hl : ALL e1) by (apply IH; [lia|assumption]).
+    assert (Hr : ALL e2) by (apply IH; [lia|assumption]).
     assert (Ho : o = Pow \/ o <> Pow) by (destruct o; auto; right; discriminate).
     destruct Ho as [-> | Ho].
     + (* power: unary ** power *)
@@ -644,7 +683,7 @@ Proof.
     destruct o.
     + (* Neg *)
       bsplit. lebs.
-      assert (Hx : ALL e) by (apply IH; [lia|assumption|assumption]).
+      assert (Hx : ALL e) by (apply IH; [lia|assumption]).
       apply (all_of_own _ LUnary); [exact W0 | reflexivity | cbn; lia |].
       split; [|intros []].
       intros rest f Hs Hf. cbn [lnum] in *. needs. destruct f as [|f1]; [lia|].
@@ -652,7 +691,7 @@ Proof.
       rewrite (proj1 (proj1 Hx LUnary ltac:(cbn [lnum]; lia)) rest f1); [reflexivity | exact Hs | cbn [lnum]; unfold need; lia].
     + (* Not *)
       bsplit. lebs.
-      assert (Hx : ALL e) by (apply IH; [lia|assumption|assumption]).
+      assert (Hx : ALL e) by (apply IH; [lia|assumption]).
       apply (all_of_own _ LNot); [exact W0 | reflexivity | cbn; lia |].
       split; [|intros []].
       intros rest f Hs Hf. cbn [lnum] in *. needs. destruct f as [|f1]; [lia|].
@@ -660,16 +699,15 @@ Proof.
       rewrite (proj1 (proj1 Hx LNot ltac:(cbn [lnum]; lia)) rest f1); [reflexivity | exact Hs | cbn [lnum]; unfold need; lia].
   - (* ECall *)
     bsplit. osplit. lebs.
-    assert (Hb : ALL e) by (apply IH; [lia|assumption|assumption]).
+    assert (Hb : ALL e) by (apply IH; [lia|assumption]).
     apply all_of_C; [exact W0 | cbn; lia |].
     intros rest G res f HG Hao Hk Hf.
     rewrite ?print_call, ?print_method. rewrite <- app_assoc. cbn [app]. rewrite <- app_assoc. cbn [app].
     assert (Hargs : forall a, List.In a args -> wfb (snd a) = true /\ A (snd a) LOr).
     { intros a Ha. assert (Wa : wfb (snd a) = true) by (eapply (forallb_in (fun a => wfb (snd a))); eassumption).
       split; [exact Wa|].
-      assert (Ka : has_cc (snd a) = false) by (eapply (existsb_in (fun a => has_cc (snd a))); eassumption).
       pose proof (in_sum (fun a => size (snd a)) a args Ha).
-      apply (proj1 (IH (snd a) ltac:(lia) Wa Ka)). cbn; lia. }
+      apply (proj1 (IH (snd a) ltac:(lia) Wa)). cbn; lia. }
     pose proof (sum_scale (fun a => size (snd a)) args) as Hsc.
     apply (proj2 Hb ltac:(lia) _ (G + list_sum (map (fun a => need (snd a)) args) + 2) res f).
     + lia.
@@ -680,8 +718,8 @@ Proof.
     + needs. unfold need in Hsc. rewrite Hsc. lia.
   - (* EIndex *)
     bsplit. osplit. lebs.
-    assert (Hb : ALL e1) by (apply IH; [lia|assumption|assumption]).
-    assert (Hi : ALL e2) by (apply IH; [lia|assumption|assumption]).
+    assert (Hb : ALL e1) by (apply IH; [lia|assumption]).
+    assert (Hi : ALL e2) by (apply IH; [lia|assumption]).
     assert (Wi : wfb e2 = true) by assumption.
     apply all_of_C; [exact W0 | cbn; lia |].
     intros rest G res f HG Hao Hk Hf.
@@ -696,30 +734,29 @@ Proof.
     + needs. lia.
   - (* ESlice *)
     bsplit. osplit. lebs.
-    assert (Hb : ALL e) by (apply IH; [lia|assumption|assumption]).
-    assert (Hcc : e0 = None -> st = None) by (intros ->; destruct st; [discriminate|reflexivity]).
+    assert (Hb : ALL e) by (apply IH; [lia|assumption]).
     apply all_of_C; [exact W0 | cbn; lia |].
     intros rest G res f HG Hao Hk Hf.
-    rewrite print_slice by exact Hcc. rewrite <- app_assoc. cbn [app]. rewrite <- app_assoc. cbn [app].
+    rewrite print_slice. rewrite <- app_assoc. cbn [app]. rewrite <- app_assoc. cbn [app].
     set (ns := match s with Some x => size x | None => 0 end) in *.
     set (ne := match e0 with Some x => size x | None => 0 end) in *.
     set (nst := match st with Some x => size x | None => 0 end) in *.
-    assert (Hopt : forall (o : option expr) k, wf_opt wfb o = true -> match o with Some y => has_cc y | None => false end = false ->
+    assert (Hopt : forall (o : option expr) k, wf_opt wfb o = true ->
                match o with Some x => size x | None => 0 end <= n -> 20 * match o with Some x => size x | None => 0 end <= k -> opt_ok k o).
-    { intros [y|] k Wy Ky Sy Hk'; cbn [opt_ok wf_opt] in *; [|exact I].
+    { intros [y|] k Wy Sy Hk'; cbn [opt_ok wf_opt] in *; [|exact I].
       split; [exact Wy|]. split; [|unfold need; lia].
-      apply (proj1 (IH y Sy Wy Ky)). cbn; lia. }
+      apply (proj1 (IH y Sy Wy)). cbn; lia. }
     apply (proj2 Hb ltac:(lia) _ (G + 20 * (ns + ne + nst) + 2) res f).
     + lia.
     + split; [intros t Hc; discriminate Hc|]. destruct e; auto. destruct f0; auto. intros t Hc; discriminate Hc.
     + intros g Hg. destruct g as [|g1]; [lia|]. cbn [ploop].
       rewrite pindex_slice_ok; [| apply Hopt; try assumption; subst ns; lia | apply Hopt; try assumption; subst ne; lia
-                               | apply Hopt; try assumption; subst nst; lia | exact Hcc].
+                               | apply Hopt; try assumption; subst nst; lia].
       cbn [bind fst snd expect_pu apply_ios defloat]. apply Hk. lia.
     + needs. lia.
   - (* EField *)
     bsplit. osplit. lebs.
-    assert (Hb : ALL e) by (apply IH; [lia|assumption|assumption]).
+    assert (Hb : ALL e) by (apply IH; [lia|assumption]).
     apply all_of_C; [exact W0 | cbn; lia |].
     intros rest G res f0 HG Hao Hk Hf.
     cbn [print_expr]. rewrite <- app_assoc. cbn [app].
@@ -737,16 +774,15 @@ Proof.
     + needs. lia.
   - (* EMethod *)
     bsplit. osplit. lebs.
-    assert (Hb : ALL e) by (apply IH; [lia|assumption|assumption]).
+    assert (Hb : ALL e) by (apply IH; [lia|assumption]).
     apply all_of_C; [exact W0 | cbn; lia |].
     intros rest G res f HG Hao Hk Hf.
     rewrite ?print_call, ?print_method. rewrite <- app_assoc. cbn [app]. rewrite <- app_assoc. cbn [app].
     assert (Hargs : forall a, List.In a args -> wfb (snd a) = true /\ A (snd a) LOr).
     { intros a Ha. assert (Wa : wfb (snd a) = true) by (eapply (forallb_in (fun a => wfb (snd a))); eassumption).
       split; [exact Wa|].
-      assert (Ka : has_cc (snd a) = false) by (eapply (existsb_in (fun a => has_cc (snd a))); eassumption).
       pose proof (in_sum (fun a => size (snd a)) a args Ha).
-      apply (proj1 (IH (snd a) ltac:(lia) Wa Ka)). cbn; lia. }
+      apply (proj1 (IH (snd a) ltac:(lia) Wa)). cbn; lia. }
     pose proof (sum_scale (fun a => size (snd a)) args) as Hsc.
     apply (proj2 Hb ltac:(lia) _ (G + list_sum (map (fun a => need (snd a)) args) + 2) res f).
     + lia.
@@ -757,7 +793,7 @@ Proof.
     + needs. unfold need in Hsc. rewrite Hsc. lia.
   - (* EAwait *)
     bsplit. lebs.
-    assert (Hx : ALL e) by (apply IH; [lia|assumption|assumption]).
+    assert (Hx : ALL e) by (apply IH; [lia|assumption]).
     apply (all_of_own _ LUnary); [exact W0 | reflexivity | cbn; lia |].
     split; [|intros []].
     intros rest f Hs Hf. cbn [lnum] in *. needs. destruct f as [|f1]; [lia|].
@@ -765,7 +801,7 @@ Proof.
     rewrite (proj1 (proj1 Hx LUnary ltac:(cbn [lnum]; lia)) rest f1); [reflexivity | exact Hs | cbn [lnum]; unfold need; lia].
   - (* ETry *)
     bsplit. lebs.
-    assert (Hb : ALL e) by (apply IH; [lia|assumption|assumption]).
+    assert (Hb : ALL e) by (apply IH; [lia|assumption]).
     apply all_of_C; [exact W0 | cbn; lia |].
     intros rest G res f HG Hao Hk Hf.
     cbn [print_expr]. rewrite <- app_assoc. cbn [app].
@@ -779,9 +815,8 @@ Proof.
     intros rest G res f HG [Har _] Hk Hf. unfold postfix_entry.
     assert (Hes : forall y, List.In y es -> wfb y = true /\ A y LOr).
     { intros y Hy. assert (Wy : wfb y = true) by (eapply forallb_in; eassumption). split; [exact Wy|].
-      assert (Ky : has_cc y = false) by (eapply existsb_in; eassumption).
       pose proof (in_sum size y es Hy).
-      apply (proj1 (IH y ltac:(lia) Wy Ky)). cbn; lia. }
+      apply (proj1 (IH y ltac:(lia) Wy)). cbn; lia. }
     assert (Fin : forall v, bind (match rest with
                                    | TPu PFatArrow :: t4 => match to_params v with
                                                             | Some ps => bind (pe f LOr t4) (fun b => POk (EClosure ps (fst b), snd b))
@@ -826,9 +861,8 @@ Proof.
     intros rest G res f HG Hao Hk Hf. unfold postfix_entry.
     assert (Hes : forall y, List.In y es -> wfb y = true /\ A y LOr).
     { intros y Hy. assert (Wy : wfb y = true) by (eapply forallb_in; eassumption). split; [exact Wy|].
-      assert (Ky : has_cc y = false) by (eapply existsb_in; eassumption).
       pose proof (in_sum size y es Hy).
-      apply (proj1 (IH y ltac:(lia) Wy Ky)). cbn; lia. }
+      apply (proj1 (IH y ltac:(lia) Wy)). cbn; lia. }
     destruct es as [|x ys].
     + cbn [print_expr map sep app primary_with bind fst snd]. apply Hk. try (unfold need in Hf; cbn [size] in Hf). lia.
     + destruct (Hes x (or_introl eq_refl)) as [Wx Ax].
@@ -846,7 +880,7 @@ Proof.
   - discriminate W.
   - discriminate W.
   - (* EParen *)
-    assert (Hx : ALL e) by (apply IH; [lia|assumption|assumption]).
+    assert (Hx : ALL e) by (apply IH; [lia|assumption]).
     apply all_of_C; [exact W0 | cbn; lia |].
     intros rest G res f HG [Har _] Hk Hf. unfold postfix_entry.
     cbn [print_expr app]. rewrite <- app_assoc. cbn [app].
@@ -858,8 +892,8 @@ Proof.
     exfalso; eapply Har; reflexivity.
   - (* ERange *)
     bsplit. osplit. lebs.
-    assert (Hs1 : ALL e1) by (apply IH; [lia|assumption|assumption]).
-    assert (Hs2 : ALL e2) by (apply IH; [lia|assumption|assumption]).
+    assert (Hs1 : ALL e1) by (apply IH; [lia|assumption]).
+    assert (Hs2 : ALL e2) by (apply IH; [lia|assumption]).
     apply (all_of_own _ LRange); [exact W0 | reflexivity | cbn; lia |].
     split; [|intros []].
     intros rest f Hs Hf. cbn [lnum] in *. needs. destruct f as [|f1]; [lia|].
@@ -874,11 +908,11 @@ Qed.
 
 (* ------------------------------------------------------------------ the round-trip theorems *)
 Theorem expr_roundtrip_norm : forall e rest f,
-  wfb e = true -> has_cc e = false -> stop 0 rest -> need e <= f ->
+  wfb e = true -> stop 0 rest -> need e <= f ->
   parse_expr f (print_expr e ++ rest) = POk (defloat e, rest).
 Proof.
-  intros e rest f W K Hs Hf. unfold parse_expr.
-  destruct (roundtrip_all (size e) e (le_n _) W K) as [H _].
+  intros e rest f W Hs Hf. unfold parse_expr.
+  destruct (roundtrip_all (size e) e (le_n _) W) as [H _].
   apply (proj1 (H LOr ltac:(cbn [lnum]; lia))); [exact Hs | cbn [lnum]; lia].
 Qed.
 
@@ -928,9 +962,9 @@ Proof.
 Qed.
 
 Theorem expr_roundtrip : forall e rest f,
-  wfb e = true -> has_cc e = false -> has_intfloat e = false -> stop 0 rest -> need e <= f ->
+  wfb e = true -> has_intfloat e = false -> stop 0 rest -> need e <= f ->
   parse_expr f (print_expr e ++ rest) = POk (e, rest).
-Proof. intros e rest f W K1 K2 Hs Hf. rewrite <- (defloat_id e K2) at 2. apply expr_roundtrip_norm; assumption. Qed.
+Proof. intros e rest f W K2 Hs Hf. rewrite <- (defloat_id e K2) at 2. apply expr_roundtrip_norm; assumption. Qed.
 
 (* ------------------------------------------------------------------ idempotence at the token level *)
 Lemma print_defloat : forall e, wfb e = true -> print_expr (defloat e) = print_expr e.
@@ -987,10 +1021,10 @@ Definition fmt_src (fuel : nat) (ts : list tok) : option (list tok) :=
   match parse_expr fuel ts with POk (e, []) => Some (print_expr e) | _ => None end.
 
 Theorem fmt_idempotent_tokens : forall e f,
-  wfb e = true -> has_cc e = false -> need e <= f ->
+  wfb e = true -> need e <= f ->
   fmt_src f (print_expr e) = Some (print_expr e).
 Proof.
-  intros e f W K Hf. unfold fmt_src.
-  pose proof (expr_roundtrip_norm e [] f W K I Hf) as H. rewrite app_nil_r in H. rewrite H.
+  intros e f W Hf. unfold fmt_src.
+  pose proof (expr_roundtrip_norm e [] f W I Hf) as H. rewrite app_nil_r in H. rewrite H.
   rewrite print_defloat by exact W. reflexivity.
 Qed.
